@@ -344,8 +344,8 @@ class LinearAdaptiveRFA(AbstractRFA):
     .. math::
         \gamma_k = \frac{|y_{1} - y_{0}|}{|y_{0} - y_{-1}|} ^ \frac{1/s} \\
         \frac{a_{k,l}}{a_{k,r}} = \gamma_k \\
-        a_{k,l} = \min(\max(\frac{\gamma_k \cdot a}{1 + \gamma_k}, 1), a) \\
-        a_{k,r} = \min(\max(\frac{a}{1 + \gamma_k}, 1), a)
+        a_{k,l} = \min(\max(\frac{\gamma_k \cdot a}{1 + \gamma_k}, 1), a - 1) \\
+        a_{k,r} = \min(\max(\frac{a}{1 + \gamma_k}, 1), a - 1)
 
     The transition values are kept between `1` and `n`, thus:
 
@@ -447,8 +447,8 @@ class LinearAdaptiveRFA(AbstractRFA):
                 gamma = gamma ** adaptive_smooth
                 a_l = gamma * a / (1 + gamma)
                 a_r = a / (1 + gamma)
-                a_l = int(min(max(a_l, 1), a))
-                a_r = int(min(max(a_r, 1), a))
+                a_l = int(min(max(a_l, 1), a - 1))
+                a_r = int(min(max(a_r, 1), a - 1))
 
                 a_ls.append(a_l)
                 a_rs.append(a_r)
